@@ -35,6 +35,11 @@ func updateMapAppendFunc(t *tType) {
 		// tSTRING fast paths range over map[K]string, []byte values have a different layout
 		ok = false
 	}
+	if ok && t.K.T == tDOUBLE {
+		// tI64 fast paths range over map[uint64]V: same layout as map[float64]V, but another hash
+		// function, and the runtime rehashes keys while it iterates a map that is growing
+		ok = false
+	}
 	if ok {
 		t.AppendFunc = f
 		return
